@@ -21,7 +21,8 @@ Full statement of the property (FALSE on this tree, kept visible):
         documented c stmts = bound c stmts ∧ ((documented c stmts).map (·.1)).Nodup
 It fails for `@x.setter` (member `x.setter` invented), a bare annotation (member invented), a class attribute
 assigned a non-literal that shadows an inherited method (member missing; literals are documented since 91105ce), definitions in `else`/`finally`
-(missing), re-bound names (pydoctor keeps the `def`/`class`), `@overload` without implementation; the
+(missing), a `def`/`class`/property name assigned afterwards (pydoctor keeps the definition; every other
+re-binding is inside the subset: the last binding wins on both sides), `@overload` without implementation; the
 kind clause fails for stacked descriptors, `builtins.classmethod`, identity decorators named `*property` and
 descriptors at module level.  Each has a `_counterexample` theorem below.  Two former exclusions are gone:
 exception classes missing from `_STD_LIB_EXCEPTIONS` (fixed by 769cae3) and a string statement right after a
@@ -296,13 +297,24 @@ theorem map_map_eq {α β γ : Type} (va : α → γ) (vb : β → γ) (fa : α 
 
 /-! ## the simulation invariant -/
 
+/-- a documented plain function/method or class: the target of a `name.__doc__ = …` statement -/
+def DocB (m : Member) : Prop := (m.cls = .function ∧ (m.kind = .method ∨ m.kind = .function)) ∨ m.cls = .cls
+/-- a function object or a class: objects whose `__doc__` can be assigned -/
+def DocP (o : PySem.PyObj) : Prop := (∃ a d, o = .func a d) ∨ (∃ e d, o = .cls e d)
+
 structure Rel (c : Ctx) (sn : Seen) (s : State) (ns : PySem.Ns) : Prop where
   views : s.contents.map (viewB c) = ns.map (viewP c)
   names : s.contents.map (·.name) = sn.names
   nodup : sn.names.Nodup
+  noOv : ∀ m ∈ s.contents, m.overloads = 0
   plainSub : ∀ n ∈ sn.plain, n ∈ sn.names
   plainB : ∀ n ∈ sn.plain, ∀ m ∈ s.contents, m.name = n → m.cls = .function ∧ m.kind = .method
   plainP : ∀ n ∈ sn.plain, ∀ b ∈ ns, b.1 = n → ∃ a d, b.2 = .func a d
+  docSub : ∀ n ∈ sn.docable, n ∈ sn.names
+  docB : ∀ n ∈ sn.docable, ∀ m ∈ s.contents, m.name = n → DocB m
+  docP : ∀ n ∈ sn.docable, ∀ b ∈ ns, b.1 = n → DocP b.2
+  varsSub : ∀ n ∈ sn.vars, n ∈ sn.names
+  varsB : ∀ n ∈ sn.vars, ∀ m ∈ s.contents, m.name = n → m.cls = .attribute ∧ m.kind ≠ .property
   cur : ∀ n, s.cur = some n → ∀ m ∈ s.contents, m.name = n → m.cls = .attribute ∧ m.kind ≠ .property
 
 theorem Rel.pnames {c : Ctx} {sn : Seen} {s : State} {ns : PySem.Ns} (R : Rel c sn s ns) :
@@ -310,64 +322,198 @@ theorem Rel.pnames {c : Ctx} {sn : Seen} {s : State} {ns : PySem.Ns} (R : Rel c 
   rw [names_of_views c _ _ R.views, R.names]
 
 theorem rel_init (c : Ctx) : Rel c {} {} [] :=
-  { views := rfl, names := rfl, nodup := List.nodup_nil, plainSub := by simp, plainB := by simp, plainP := by simp,
+  { views := rfl, names := rfl, nodup := List.nodup_nil, noOv := by simp, plainSub := by simp, plainB := by simp,
+    plainP := by simp, docSub := by simp, docB := by simp, docP := by simp, varsSub := by simp, varsB := by simp,
     cur := by simp }
 
-/-- both sides append a new entry under a fresh name -/
-theorem rel_append {c : Ctx} {sn : Seen} {s : State} {ns : PySem.Ns} (R : Rel c sn s ns)
-    (m : Member) (o : PySem.PyObj) (hfresh : m.name ∉ sn.names)
-    (hv : viewB c m = viewP c (m.name, o)) (cur' : Option Name) (plain' : List Name)
-    (hplain : ∀ n ∈ plain', n ∈ sn.plain ∨ (n = m.name ∧ m.cls = .function ∧ m.kind = .method ∧ ∃ a d, o = .func a d))
-    (hcur : ∀ n, cur' = some n → n = m.name ∧ m.cls = .attribute ∧ m.kind ≠ .property) :
-    Rel c { names := sn.names ++ [m.name], plain := plain' }
-      { contents := s.contents ++ [m], cur := cur' } (ns ++ [(m.name, o)]) := by
-  have hnc : ∀ m' ∈ s.contents, m'.name ≠ m.name := by
-    intro m' hm' e
-    apply hfresh
-    rw [← R.names]
-    exact List.mem_map.mpr ⟨m', hm', e⟩
-  have hnp : ∀ b ∈ ns, b.1 ≠ m.name := by
-    intro b hb e
-    apply hfresh
-    rw [← R.pnames]
-    exact List.mem_map.mpr ⟨b, hb, e⟩
-  refine { views := ?_, names := ?_, nodup := ?_, plainSub := ?_, plainB := ?_, plainP := ?_, cur := ?_ }
-  · simp [R.views, hv]
-  · simp [R.names]
-  · rw [List.nodup_append]
-    refine ⟨R.nodup, by simp, ?_⟩
+/-! ### `contents[name] = obj` / `ns[name] = obj`: a new entry at the end, or the old entry replaced in place -/
+
+theorem mem_put {l : List Member} {m m' : Member} (h : m' ∈ put l m) : m' = m ∨ (m' ∈ l ∧ m'.name ≠ m.name) := by
+  unfold put at h
+  split at h
+  · obtain ⟨x, hx, rfl⟩ := List.mem_map.mp h
+    by_cases e : x.name = m.name
+    · left; simp [e]
+    · right; simp [e, hx]
+  · rename_i hl
+    simp only [Option.isSome_iff_ne_none, ne_eq, Decidable.not_not] at hl
+    rcases List.mem_append.mp h with h | h
+    · right
+      refine ⟨h, fun e => ?_⟩
+      have := (lookup_none_iff l m.name).mp hl
+      exact this (List.mem_map.mpr ⟨m', h, e⟩)
+    · left; simpa using h
+
+theorem mem_bind {ns : PySem.Ns} {n : Name} {o : PySem.PyObj} {b : Name × PySem.PyObj} (h : b ∈ PySem.bind ns n o) :
+    b = (n, o) ∨ (b ∈ ns ∧ b.1 ≠ n) := by
+  unfold PySem.bind at h
+  split at h
+  · obtain ⟨x, hx, rfl⟩ := List.mem_map.mp h
+    by_cases e : x.1 = n
+    · left; simp [e]
+    · right; simp [e, hx]
+  · rename_i hl
+    simp only [Option.isSome_iff_ne_none, ne_eq, Decidable.not_not] at hl
+    rcases List.mem_append.mp h with h | h
+    · right
+      refine ⟨h, fun e => ?_⟩
+      have := (plookup_none_iff ns n).mp hl
+      exact this (List.mem_map.mpr ⟨b, h, e⟩)
+    · left; simpa using h
+
+theorem put_names (l : List Member) (m : Member) : (put l m).map (·.name) = Subset.addName (l.map (·.name)) m.name := by
+  by_cases hin : m.name ∈ l.map (·.name)
+  · have hl : (lookup l m.name).isSome = true := by
+      cases hq : lookup l m.name with
+      | none => exact absurd hin ((lookup_none_iff l m.name).mp hq)
+      | some _ => rfl
+    have hc : (l.map (·.name)).contains m.name = true := by simpa using hin
+    simp only [put, hl, if_true, Subset.addName, hc, List.map_map]
+    apply List.map_congr_left
+    intro x _
+    by_cases e : x.name = m.name <;> simp [e]
+  · have hl := (lookup_none_iff l m.name).mpr hin
+    have hc : (l.map (·.name)).contains m.name = false := by simpa using hin
+    rw [put_fresh _ _ hl]
+    simp only [Subset.addName, hc, Bool.false_eq_true, if_false, List.map_append, List.map_cons, List.map_nil]
+
+theorem nodup_addName (names : List Name) (n : Name) (h : names.Nodup) : (Subset.addName names n).Nodup := by
+  unfold Subset.addName
+  split
+  · exact h
+  · rename_i hc
+    rw [List.nodup_append]
+    refine ⟨h, by simp, ?_⟩
     intro a ha b hb e
     simp at hb
     subst hb; subst e
-    exact hfresh ha
-  · intro n hn
-    rcases hplain n hn with h | h
-    · simp [R.plainSub n h]
-    · simp [h.1]
-  · intro n hn m' hm' e
-    simp only [List.mem_append, List.mem_singleton] at hm'
-    rcases hplain n hn with h | h
-    · rcases hm' with hm' | hm'
-      · exact R.plainB n h m' hm' e
-      · subst hm'; subst e; exact absurd (R.plainSub _ h) hfresh
-    · rcases hm' with hm' | hm'
-      · exact absurd (e.trans h.1) (hnc m' hm')
-      · subst hm'; exact ⟨h.2.1, h.2.2.1⟩
-  · intro n hn b hb e
-    simp only [List.mem_append, List.mem_singleton] at hb
-    rcases hplain n hn with h | h
-    · rcases hb with hb | hb
-      · exact R.plainP n h b hb e
-      · subst hb; simp at e; subst e; exact absurd (R.plainSub _ h) hfresh
-    · rcases hb with hb | hb
-      · exact absurd (e.trans h.1) (hnp b hb)
-      · subst hb; exact h.2.2.2
-  · intro n hn m' hm' e
-    obtain ⟨h1, h2, h3⟩ := hcur n hn
-    simp only [List.mem_append, List.mem_singleton] at hm'
-    rcases hm' with hm' | hm'
-    · exact absurd (e.trans h1) (hnc m' hm')
-    · subst hm'; exact ⟨h2, h3⟩
+    exact hc (by simpa using ha)
+
+theorem mem_addName (names : List Name) (n k : Name) : k ∈ Subset.addName names n ↔ k ∈ names ∨ k = n := by
+  unfold Subset.addName
+  split
+  · rename_i hc
+    constructor
+    · intro h; exact Or.inl h
+    · intro h
+      rcases h with h | h
+      · exact h
+      · subst h; simpa using hc
+  · simp
+
+theorem put_bind_views (c : Ctx) (l : List Member) (ns : PySem.Ns) (m : Member) (o : PySem.PyObj)
+    (h : l.map (viewB c) = ns.map (viewP c)) (hv : viewB c m = viewP c (m.name, o)) :
+    (put l m).map (viewB c) = (PySem.bind ns m.name o).map (viewP c) := by
+  have hn := names_of_views c l ns h
+  by_cases hin : m.name ∈ l.map (·.name)
+  · have hl : (lookup l m.name).isSome = true := by
+      cases hq : lookup l m.name with
+      | none => exact absurd hin ((lookup_none_iff l m.name).mp hq)
+      | some _ => rfl
+    have hlp : (PySem.lookup ns m.name).isSome = true := by
+      cases hq : PySem.lookup ns m.name with
+      | none => rw [plookup_none_iff, hn] at hq; exact absurd hin hq
+      | some _ => rfl
+    simp only [put, hl, if_true, PySem.bind, hlp]
+    apply map_map_eq (viewB c) (viewP c) _ _ _ _ h
+    intro a _ b _ hab
+    have hname : a.name = b.1 := by simpa [viewB, viewP] using congrArg View.name hab
+    by_cases e : a.name = m.name
+    · have eb : b.1 = m.name := hname ▸ e
+      rw [if_pos e, if_pos eb]; exact hv
+    · have eb : ¬ b.1 = m.name := hname ▸ e
+      rw [if_neg e, if_neg eb]; exact hab
+  · have hl := (lookup_none_iff l m.name).mpr hin
+    have hlp : PySem.lookup ns m.name = none := by rw [plookup_none_iff, hn]; exact hin
+    rw [put_fresh _ _ hl, bind_fresh _ _ _ hlp]
+    simp [h, hv]
+
+/-- what the caller knows about the entry being written and about the bookkeeping lists afterwards -/
+structure NewFacts (sn : Seen) (m : Member) (o : PySem.PyObj) (plain' doc' vars' : List Name) (cur' : Option Name) : Prop where
+  ov : m.overloads = 0
+  plain : ∀ k ∈ plain', (k ∈ sn.plain ∧ k ≠ m.name) ∨
+            (k = m.name ∧ m.cls = .function ∧ m.kind = .method ∧ ∃ a d, o = .func a d)
+  doc : ∀ k ∈ doc', (k ∈ sn.docable ∧ k ≠ m.name) ∨ (k = m.name ∧ DocB m ∧ DocP o)
+  vars : ∀ k ∈ vars', (k ∈ sn.vars ∧ k ≠ m.name) ∨ (k = m.name ∧ m.cls = .attribute ∧ m.kind ≠ .property)
+  cur : ∀ k, cur' = some k → k = m.name ∧ m.cls = .attribute ∧ m.kind ≠ .property
+
+/-- both sides write an entry under the same name — a new one at the end or the old one replaced in place -/
+theorem rel_put {c : Ctx} {sn : Seen} {s : State} {ns : PySem.Ns} (R : Rel c sn s ns)
+    (m : Member) (o : PySem.PyObj) (hv : viewB c m = viewP c (m.name, o))
+    {plain' doc' vars' : List Name} {cur' : Option Name} (F : NewFacts sn m o plain' doc' vars' cur') :
+    Rel c { names := Subset.addName sn.names m.name, plain := plain', docable := doc', vars := vars' }
+      { contents := put s.contents m, cur := cur' } (PySem.bind ns m.name o) := by
+  refine { views := put_bind_views c _ _ m o R.views hv, names := ?_, nodup := nodup_addName _ _ R.nodup, noOv := ?_,
+           plainSub := ?_, plainB := ?_, plainP := ?_, docSub := ?_, docB := ?_, docP := ?_, varsSub := ?_, varsB := ?_,
+           cur := ?_ }
+  · rw [put_names, R.names]
+  · intro m' hm'
+    rcases mem_put hm' with h | h
+    · rw [h]; exact F.ov
+    · exact R.noOv m' h.1
+  · intro k hk
+    rw [mem_addName]
+    rcases F.plain k hk with h | h
+    · exact Or.inl (R.plainSub k h.1)
+    · exact Or.inr h.1
+  · intro k hk m' hm' e
+    rcases F.plain k hk with h | h
+    · rcases mem_put hm' with h' | h'
+      · subst h'; exact absurd e.symm h.2
+      · exact R.plainB k h.1 m' h'.1 e
+    · rcases mem_put hm' with h' | h'
+      · subst h'; exact ⟨h.2.1, h.2.2.1⟩
+      · exact absurd (e.trans h.1) h'.2
+  · intro k hk b hb e
+    rcases F.plain k hk with h | h
+    · rcases mem_bind hb with h' | h'
+      · subst h'; exact absurd e.symm h.2
+      · exact R.plainP k h.1 b h'.1 e
+    · rcases mem_bind hb with h' | h'
+      · subst h'; exact h.2.2.2
+      · exact absurd (e.trans h.1) h'.2
+  · intro k hk
+    rw [mem_addName]
+    rcases F.doc k hk with h | h
+    · exact Or.inl (R.docSub k h.1)
+    · exact Or.inr h.1
+  · intro k hk m' hm' e
+    rcases F.doc k hk with h | h
+    · rcases mem_put hm' with h' | h'
+      · subst h'; exact absurd e.symm h.2
+      · exact R.docB k h.1 m' h'.1 e
+    · rcases mem_put hm' with h' | h'
+      · subst h'; exact h.2.1
+      · exact absurd (e.trans h.1) h'.2
+  · intro k hk b hb e
+    rcases F.doc k hk with h | h
+    · rcases mem_bind hb with h' | h'
+      · subst h'; exact absurd e.symm h.2
+      · exact R.docP k h.1 b h'.1 e
+    · rcases mem_bind hb with h' | h'
+      · subst h'; exact h.2.2
+      · exact absurd (e.trans h.1) h'.2
+  · intro k hk
+    rw [mem_addName]
+    rcases F.vars k hk with h | h
+    · exact Or.inl (R.varsSub k h.1)
+    · exact Or.inr h.1
+  · intro k hk m' hm' e
+    rcases F.vars k hk with h | h
+    · rcases mem_put hm' with h' | h'
+      · subst h'; exact absurd e.symm h.2
+      · exact R.varsB k h.1 m' h'.1 e
+    · rcases mem_put hm' with h' | h'
+      · subst h'; exact h.2
+      · exact absurd (e.trans h.1) h'.2
+  · intro k hk m' hm' e
+    obtain ⟨h1, h2, h3⟩ := F.cur k hk
+    rcases mem_put hm' with h' | h'
+    · subst h'; exact ⟨h2, h3⟩
+    · exact absurd (e.trans h1) h'.2
+
+theorem mem_dropName {n k : Name} {l : List Name} : k ∈ dropName n l ↔ k ∈ l ∧ k ≠ n := by
+  simp [dropName]
 
 /-! ## one statement at a time -/
 
@@ -380,175 +526,24 @@ theorem sim_classDef {c : Ctx} {sn sn' : Seen} {s : State} {ns : PySem.Ns} (R : 
   split at h
   · simp at h
   · rename_i hc
-    simp only [Bool.or_eq_true, Bool.not_eq_true', not_or, Bool.not_eq_true, Bool.not_eq_false] at hc
-    obtain ⟨⟨hn, _⟩, hb⟩ := hc
-    have hn' : n ∉ sn.names := by simpa using hn
+    simp only [Bool.or_eq_true, Bool.not_eq_true', not_or, Bool.not_eq_false] at hc
+    obtain ⟨_, hb⟩ := hc
     simp only [Option.some.injEq] at h
     subst h
-    have hl : lookup s.contents n = none := by rw [lookup_none_iff, R.names]; exact hn'
-    have hlp : PySem.lookup ns n = none := by rw [plookup_none_iff, R.pnames]; exact hn'
     refine ⟨_, _, by simp only [execStmt]; rfl, by simp only [PySem.execStmt]; rfl, ?_⟩
     simp only [handleClassDef]
-    rw [put_fresh _ _ hl, bind_fresh _ _ _ hlp]
-    refine rel_append R { name := n, cls := .cls, kind := .cls, doc := doc.map cleandoc, bases := bases } _ hn' ?_ none sn.plain
-      (fun n hn => Or.inl hn) (by simp)
-    rw [← exception_eq_of_tables c bases (by simpa using hb)]
-    cases he : isException c bases <;>
-      simp [viewB, viewP, postProcess, he, kindClass, PySem.kindClass, PySem.coroutine, PySem.underlying, PySem.rawDoc]
-
-theorem storeVar_facts (obj : Member) (ann : Option Name) (v : Lit) (ib : Bool) (dk : Kind)
-    (hc : obj.cls = .attribute) (hk : obj.kind ≠ .property) (hd : dk ≠ .property) :
-    (storeVar obj ann (some v) ib dk).name = obj.name ∧ (storeVar obj ann (some v) ib dk).cls = .attribute ∧
-    (storeVar obj ann (some v) ib dk).kind ≠ .property ∧ (storeVar obj ann (some v) ib dk).value = some v := by
-  cases ann <;> simp only [storeVar, handleConstant] <;> (repeat' split) <;> simp_all
-
-theorem view_var (c : Ctx) (m : Member) (v : Lit) (hc : m.cls = .attribute) (hk : m.kind ≠ .property)
-    (hv : m.value = some v) : viewB c m = viewP c (m.name, .value v) := by
-  have hp : postProcess c m = m := by simp [postProcess, hc]
-  have hkc : kindClass m = .variable := by
-    unfold kindClass; rw [hc]; cases hk' : m.kind <;> simp_all
-  simp [viewB, viewP, hp, hkc, hc, hv, PySem.kindClass, PySem.coroutine, PySem.underlying]
-
-theorem sim_assign {c : Ctx} {sn sn' : Seen} {s : State} {ns : PySem.Ns} (R : Rel c sn s ns) (inBlock : Bool)
-    (n : Name) (v : Lit) (ann : Option Name)
-    (h : checkStmt c sn (.assign n v ann) = some sn') :
-    ∃ s' ns', execStmt c inBlock s (.assign n v ann) = .ok s' ∧
-      PySem.execStmt c ns (.assign n v ann) = .ok ns' ∧ Rel c sn' s' ns' := by
-  simp only [checkStmt] at h
-  split at h
-  · simp at h
-  · rename_i hc
-    simp only [Bool.or_eq_true, not_or, Bool.not_eq_true] at hc
-    obtain ⟨hn, hi⟩ := hc
-    have hn' : n ∉ sn.names := by simpa using hn
-    simp only [Option.some.injEq] at h
-    subst h
-    have hl : lookup s.contents n = none := by rw [lookup_none_iff, R.names]; exact hn'
-    have hlp : PySem.lookup ns n = none := by rw [plookup_none_iff, R.pnames]; exact hn'
-    cases hcl : c.inClass with
-    | true =>
-      have hguard : (!maybeAttribute c s n && !((lookup s.contents n).isNone && isLiteralValue (some v))) = false := by
-        simp only [maybeAttribute, hl, Option.isNone_none, Bool.true_and]
-        cases hin : c.inheritedNonAttr.contains n <;> cases hlit : isLiteralValue (some v) <;> simp_all
-      obtain ⟨f1, f2, f3, f4⟩ := storeVar_facts { name := n, cls := .attribute, kind := .classVariable } ann v inBlock
-        .classVariable rfl (by simp) (by simp)
-      refine ⟨_, _, by simp only [execStmt]; rfl, by simp only [PySem.execStmt]; rfl, ?_⟩
-      have hcv : handleClassVar c s n ann (some v) inBlock =
-          { contents := put s.contents (storeVar { name := n, cls := .attribute, kind := .classVariable } ann (some v) inBlock .classVariable),
-            cur := some n } := by
-        unfold handleClassVar
-        rw [hguard]
-        simp [hl]
-      simp only [handleVar, hcl, if_true, hcv]
-      rw [put_fresh _ _ (by rw [f1]; exact hl), bind_fresh _ _ _ hlp]
-      have := rel_append R (storeVar { name := n, cls := .attribute, kind := .classVariable } ann (some v) inBlock .classVariable)
-        (.value v) (by rw [f1]; exact hn') (view_var c _ v f2 f3 f4) (some n) sn.plain (fun n hn => Or.inl hn)
-        (by intro k hk; simp at hk; subst hk; exact ⟨f1.symm, f2, f3⟩)
-      simpa [f1] using this
-    | false =>
-      obtain ⟨f1, f2, f3, f4⟩ := storeVar_facts { name := n, cls := .attribute, kind := .variable } ann v inBlock
-        .variable rfl (by simp) (by simp)
-      refine ⟨_, _, by simp only [execStmt]; rfl, by simp only [PySem.execStmt]; rfl, ?_⟩
-      simp only [handleVar, hcl, handleModuleVar, hl]
-      rw [put_fresh _ _ (by rw [f1]; exact hl), bind_fresh _ _ _ hlp]
-      have := rel_append R (storeVar { name := n, cls := .attribute, kind := .variable } ann (some v) inBlock .variable)
-        (.value v) (by rw [f1]; exact hn') (view_var c _ v f2 f3 f4) (some n) sn.plain (fun n hn => Or.inl hn)
-        (by intro k hk; simp at hk; subst hk; exact ⟨f1.symm, f2, f3⟩)
-      simpa [f1] using this
-
-theorem decoFlags_ok (inClass : Bool) (n : Name) (ds : List Deco) (h : ds.all (decoOk inClass) = true) :
-    decoFlags inClass n ds =
-      { funcName := n, isProperty := (descs ds).contains .property, isClassmethod := (descs ds).contains .classmethod,
-        isStaticmethod := (descs ds).contains .staticmethod, isOverload := false } := by
-  simp [decoFlags, foldl_decoStep_ok inClass ds _ h]
-
-theorem sim_funcDef {c : Ctx} {sn sn' : Seen} {s : State} {ns : PySem.Ns} (R : Rel c sn s ns) (inBlock : Bool)
-    (n : Name) (async : Bool) (decos : List Deco) (doc : Option (List Char))
-    (h : checkStmt c sn (.funcDef n async decos doc) = some sn') :
-    ∃ s' ns', execStmt c inBlock s (.funcDef n async decos doc) = .ok s' ∧
-      PySem.execStmt c ns (.funcDef n async decos doc) = .ok ns' ∧ Rel c sn' s' ns' := by
-  simp only [checkStmt] at h
-  split at h
-  · simp at h
-  · rename_i hc
-    simp only [Bool.or_eq_true, Bool.not_eq_true', not_or, Bool.not_eq_true, Bool.not_eq_false] at hc
-    obtain ⟨hn, hd⟩ := hc
-    have hn' : n ∉ sn.names := by simpa using hn
-    simp only [Option.some.injEq] at h
-    subst h
-    simp only [decosOk, Bool.and_eq_true, decide_eq_true_eq] at hd
-    obtain ⟨hall, hlen⟩ := hd
-    have hl : lookup s.contents n = none := by rw [lookup_none_iff, R.names]; exact hn'
-    have hlp : PySem.lookup ns n = none := by rw [plookup_none_iff, R.pnames]; exact hn'
-    have hpy : PySem.execStmt c ns (.funcDef n async decos doc) =
-        .ok (ns ++ [(n, wrapAll (descs decos) (.func async doc))]) := by
-      simp only [PySem.execStmt, applyDecos_ok c.inClass ns _ decos hall, bind_fresh _ _ _ hlp]
-    refine ⟨_, _, by simp only [execStmt]; rfl, hpy, ?_⟩
-    match hds : descs decos, hlen with
-    | [], _ =>
-      have hB : handleFunctionDef c s n async decos doc =
-          { contents := s.contents ++ [{ name := n, cls := .function, kind := if c.inClass then .method else .function,
-                                         doc := doc.map cleandoc, isAsync := async, hasSig := true }], cur := none } := by
-        simp only [handleFunctionDef, decoFlags_ok c.inClass n decos hall, hl, hds]
-        cases doc <;> simp [put, hl]
-      rw [hB]
-      cases hci : c.inClass with
-      | true =>
-        refine rel_append R { name := n, cls := .function, kind := .method, doc := doc.map cleandoc, isAsync := async, hasSig := true }
-          (.func async doc) hn' ?_ none _ ?_ (by simp)
-        · simp [viewB, viewP, postProcess, kindClass, PySem.kindClass, PySem.coroutine, PySem.underlying, PySem.rawDoc, hci]
-        · intro n' hn''
-          simp at hn''
-          rcases hn'' with h | h
-          · exact Or.inl h
-          · exact Or.inr ⟨h, rfl, rfl, _, _, rfl⟩
-      | false =>
-        refine rel_append R { name := n, cls := .function, kind := .function, doc := doc.map cleandoc, isAsync := async, hasSig := true }
-          (.func async doc) hn' ?_ none _ ?_ (by simp)
-        · simp [viewB, viewP, postProcess, kindClass, PySem.kindClass, PySem.coroutine, PySem.underlying, PySem.rawDoc, hci]
-        · intro n' hn''
-          simp at hn''
-          exact Or.inl hn''
-    | [k], _ =>
-      cases k with
-      | property =>
-        have hB : handleFunctionDef c s n async decos doc =
-            { contents := s.contents ++ [{ name := n, cls := .attribute, kind := .property, doc := doc.map cleandoc }],
-              cur := none } := by
-          simp [handleFunctionDef, decoFlags_ok c.inClass n decos hall, hl, hds, put]
-        rw [hB]
-        refine rel_append R { name := n, cls := .attribute, kind := .property, doc := doc.map cleandoc }
-          (.prop (.func async doc)) hn' ?_ none _ ?_ (by simp)
-        · simp [viewB, viewP, postProcess, kindClass, PySem.kindClass, PySem.coroutine, PySem.underlying, PySem.rawDoc]
-        · intro n' hn''
-          simp at hn''
-          exact Or.inl hn''
-      | classmethod =>
-        have hB : handleFunctionDef c s n async decos doc =
-            { contents := s.contents ++ [{ name := n, cls := .function, kind := .classMethod, doc := doc.map cleandoc,
-                                           isAsync := async, hasSig := true }], cur := none } := by
-          simp only [handleFunctionDef, decoFlags_ok c.inClass n decos hall, hl, hds]
-          cases doc <;> simp [put, hl]
-        rw [hB]
-        refine rel_append R { name := n, cls := .function, kind := .classMethod, doc := doc.map cleandoc, isAsync := async, hasSig := true }
-          (.cm (.func async doc)) hn' ?_ none _ ?_ (by simp)
-        · simp [viewB, viewP, postProcess, kindClass, PySem.kindClass, PySem.coroutine, PySem.underlying, PySem.rawDoc]
-        · intro n' hn''
-          simp at hn''
-          exact Or.inl hn''
-      | staticmethod =>
-        have hB : handleFunctionDef c s n async decos doc =
-            { contents := s.contents ++ [{ name := n, cls := .function, kind := .staticMethod, doc := doc.map cleandoc,
-                                           isAsync := async, hasSig := true }], cur := none } := by
-          simp only [handleFunctionDef, decoFlags_ok c.inClass n decos hall, hl, hds]
-          cases doc <;> simp [put, hl]
-        rw [hB]
-        refine rel_append R { name := n, cls := .function, kind := .staticMethod, doc := doc.map cleandoc, isAsync := async, hasSig := true }
-          (.sm (.func async doc)) hn' ?_ none _ ?_ (by simp)
-        · simp [viewB, viewP, postProcess, kindClass, PySem.kindClass, PySem.coroutine, PySem.underlying, PySem.rawDoc]
-        · intro n' hn''
-          simp at hn''
-          exact Or.inl hn''
+    refine rel_put R { name := n, cls := .cls, kind := .cls, doc := doc.map cleandoc, bases := bases } _ ?_
+      { ov := rfl, plain := ?_, doc := ?_, vars := ?_, cur := by simp }
+    · rw [← exception_eq_of_tables c bases (by simpa using hb)]
+      cases he : isException c bases <;>
+        simp [viewB, viewP, postProcess, he, kindClass, PySem.kindClass, PySem.coroutine, PySem.underlying, PySem.rawDoc]
+    · intro k hk; exact Or.inl (mem_dropName.mp hk)
+    · intro k hk
+      simp only [List.mem_append, List.mem_singleton] at hk
+      rcases hk with h | h
+      · exact Or.inl (mem_dropName.mp h)
+      · exact Or.inr ⟨h, Or.inr rfl, Or.inr ⟨_, _, rfl⟩⟩
+    · intro k hk; exact Or.inl (mem_dropName.mp hk)
 
 theorem lookup_some {l : List Member} {n : Name} {m : Member} (h : lookup l n = some m) : m ∈ l ∧ m.name = n := by
   unfold lookup at h
@@ -574,6 +569,331 @@ theorem pairs_unique : ∀ (ns : PySem.Ns), (ns.map (·.1)).Nodup → ∀ b ∈ 
     · subst hb; exact absurd e.symm (hn.1 b' hb')
     · subst hb'; exact absurd e (hn.1 b hb)
     · exact pairs_unique rest hn.2 b hb b' hb' e
+
+theorem storeVar_facts (obj : Member) (ann : Option Name) (v : Lit) (ib : Bool) (dk : Kind)
+    (hc : obj.cls = .attribute) (hk : obj.kind ≠ .property) (hd : dk ≠ .property) :
+    (storeVar obj ann (some v) ib dk).name = obj.name ∧ (storeVar obj ann (some v) ib dk).cls = .attribute ∧
+    (storeVar obj ann (some v) ib dk).kind ≠ .property ∧ (storeVar obj ann (some v) ib dk).value = some v ∧
+    (storeVar obj ann (some v) ib dk).overloads = obj.overloads := by
+  cases ann <;> simp only [storeVar, handleConstant] <;> (repeat' split) <;> simp_all
+
+theorem view_var (c : Ctx) (m : Member) (v : Lit) (hc : m.cls = .attribute) (hk : m.kind ≠ .property)
+    (hv : m.value = some v) : viewB c m = viewP c (m.name, .value v) := by
+  have hp : postProcess c m = m := by simp [postProcess, hc]
+  have hkc : kindClass m = .variable := by
+    unfold kindClass; rw [hc]; cases hk' : m.kind <;> simp_all
+  simp [viewB, viewP, hp, hkc, hc, hv, PySem.kindClass, PySem.coroutine, PySem.underlying]
+
+/-- a variable is assigned again: pydoctor updates the Attribute in place (`upd`), CPython rebinds the name -/
+theorem rel_updvar {c : Ctx} {sn : Seen} {s : State} {ns : PySem.Ns} (R : Rel c sn s ns)
+    (n : Name) (v : Lit) (ann : Option Name) (ib : Bool) (dk : Kind) (hd : dk ≠ .property)
+    (hnames : n ∈ sn.names) (hvar : n ∈ sn.vars) :
+    Rel c { names := Subset.addName sn.names n, plain := dropName n sn.plain, docable := dropName n sn.docable,
+            vars := dropName n sn.vars ++ [n] }
+      { contents := upd s.contents n (fun o => storeVar o ann (some v) ib dk), cur := some n }
+      (PySem.bind ns n (.value v)) := by
+  have hadd : Subset.addName sn.names n = sn.names := by
+    unfold Subset.addName; rw [if_pos (by simpa using hnames)]
+  have hlp : (PySem.lookup ns n).isSome = true := by
+    cases hq : PySem.lookup ns n with
+    | none => rw [plookup_none_iff, R.pnames] at hq; exact absurd hnames hq
+    | some _ => rfl
+  have hfacts : ∀ x ∈ s.contents, x.name = n →
+      (storeVar x ann (some v) ib dk).name = x.name ∧ (storeVar x ann (some v) ib dk).cls = .attribute ∧
+      (storeVar x ann (some v) ib dk).kind ≠ .property ∧ (storeVar x ann (some v) ib dk).value = some v ∧
+      (storeVar x ann (some v) ib dk).overloads = x.overloads := by
+    intro x hx e
+    obtain ⟨h1, h2⟩ := R.varsB n hvar x hx e
+    exact storeVar_facts x ann v ib dk h1 h2 hd
+  -- a member of the updated contents is an old member with another name, or the update of an old member named n
+  have hmem : ∀ m' ∈ upd s.contents n (fun o => storeVar o ann (some v) ib dk),
+      (m' ∈ s.contents ∧ m'.name ≠ n) ∨ (∃ x ∈ s.contents, x.name = n ∧ m' = storeVar x ann (some v) ib dk) := by
+    intro m' hm'
+    simp only [upd, List.mem_map] at hm'
+    obtain ⟨x, hx, rfl⟩ := hm'
+    by_cases e : x.name = n
+    · right; exact ⟨x, hx, e, by simp [e]⟩
+    · left; simp [e, hx]
+  rw [hadd]
+  simp only [PySem.bind, hlp, if_true]
+  refine { views := ?_, names := ?_, nodup := R.nodup, noOv := ?_, plainSub := ?_, plainB := ?_, plainP := ?_,
+           docSub := ?_, docB := ?_, docP := ?_, varsSub := ?_, varsB := ?_, cur := ?_ }
+  · simp only [upd]
+    apply map_map_eq (viewB c) (viewP c) _ _ _ _ R.views
+    intro a ha b _ hab
+    have hname : a.name = b.1 := by simpa [viewB, viewP] using congrArg View.name hab
+    by_cases e : a.name = n
+    · have eb : b.1 = n := hname ▸ e
+      rw [if_pos e, if_pos eb]
+      obtain ⟨f1, f2, f3, f4, _⟩ := hfacts a ha e
+      have := view_var c _ v f2 f3 f4
+      rw [f1, e] at this
+      exact this
+    · have eb : ¬ b.1 = n := hname ▸ e
+      rw [if_neg e, if_neg eb]; exact hab
+  · rw [← R.names]
+    simp only [upd, List.map_map]
+    apply List.map_congr_left
+    intro x hx
+    by_cases e : x.name = n
+    · simp [e, (hfacts x hx e).1]
+    · simp [e]
+  · intro m' hm'
+    rcases hmem m' hm' with h | ⟨x, hx, e, rfl⟩
+    · exact R.noOv m' h.1
+    · rw [(hfacts x hx e).2.2.2.2]; exact R.noOv x hx
+  · intro k hk; exact R.plainSub k (mem_dropName.mp hk).1
+  · intro k hk m' hm' e
+    obtain ⟨hk1, hk2⟩ := mem_dropName.mp hk
+    rcases hmem m' hm' with h | ⟨x, hx, ex, rfl⟩
+    · exact R.plainB k hk1 m' h.1 e
+    · rw [(hfacts x hx ex).1, ex] at e; exact absurd e.symm hk2
+  · intro k hk b' hb' e
+    obtain ⟨hk1, hk2⟩ := mem_dropName.mp hk
+    simp only [List.mem_map] at hb'
+    obtain ⟨b, hb, rfl⟩ := hb'
+    by_cases e' : b.1 = n
+    · simp only [e', if_true] at e; exact absurd e.symm hk2
+    · simp only [e', if_false] at e ⊢; exact R.plainP k hk1 b hb e
+  · intro k hk; exact R.docSub k (mem_dropName.mp hk).1
+  · intro k hk m' hm' e
+    obtain ⟨hk1, hk2⟩ := mem_dropName.mp hk
+    rcases hmem m' hm' with h | ⟨x, hx, ex, rfl⟩
+    · exact R.docB k hk1 m' h.1 e
+    · rw [(hfacts x hx ex).1, ex] at e; exact absurd e.symm hk2
+  · intro k hk b' hb' e
+    obtain ⟨hk1, hk2⟩ := mem_dropName.mp hk
+    simp only [List.mem_map] at hb'
+    obtain ⟨b, hb, rfl⟩ := hb'
+    by_cases e' : b.1 = n
+    · simp only [e', if_true] at e; exact absurd e.symm hk2
+    · simp only [e', if_false] at e ⊢; exact R.docP k hk1 b hb e
+  · intro k hk
+    simp only [List.mem_append, List.mem_singleton] at hk
+    rcases hk with h | h
+    · exact R.varsSub k (mem_dropName.mp h).1
+    · rw [h]; exact hnames
+  · intro k hk m' hm' e
+    simp only [List.mem_append, List.mem_singleton] at hk
+    rcases hmem m' hm' with h | ⟨x, hx, ex, rfl⟩
+    · rcases hk with hk | hk
+      · exact R.varsB k (mem_dropName.mp hk).1 m' h.1 e
+      · exact absurd (e.trans hk) h.2
+    · exact ⟨(hfacts x hx ex).2.1, (hfacts x hx ex).2.2.1⟩
+  · intro k hk m' hm' e
+    simp only [Option.some.injEq] at hk
+    subst hk
+    rcases hmem m' hm' with h | ⟨x, hx, ex, rfl⟩
+    · exact absurd e h.2
+    · exact ⟨(hfacts x hx ex).2.1, (hfacts x hx ex).2.2.1⟩
+
+theorem sim_assign {c : Ctx} {sn sn' : Seen} {s : State} {ns : PySem.Ns} (R : Rel c sn s ns) (inBlock : Bool)
+    (n : Name) (v : Lit) (ann : Option Name)
+    (h : checkStmt c sn (.assign n v ann) = some sn') :
+    ∃ s' ns', execStmt c inBlock s (.assign n v ann) = .ok s' ∧
+      PySem.execStmt c ns (.assign n v ann) = .ok ns' ∧ Rel c sn' s' ns' := by
+  simp only [checkStmt] at h
+  split at h
+  · simp at h
+  · rename_i hc
+    simp only [Bool.or_eq_true, not_or, Bool.not_eq_true] at hc
+    obtain ⟨hn, hi⟩ := hc
+    simp only [Option.some.injEq] at h
+    subst h
+    refine ⟨_, _, by simp only [execStmt]; rfl, by simp only [PySem.execStmt]; rfl, ?_⟩
+    by_cases hin : n ∈ sn.names
+    · -- the name is bound to a variable already: updated in place
+      have hvar : n ∈ sn.vars := by
+        have h1 : sn.names.contains n = true := by simpa using hin
+        cases hv : sn.vars.contains n with
+        | false => simp [h1, hv] at hn; exact hn hin
+        | true => simpa using hv
+      cases hl : lookup s.contents n with
+      | none => rw [lookup_none_iff, R.names] at hl; exact absurd hin hl
+      | some obj =>
+        obtain ⟨hobj, hon⟩ := lookup_some hl
+        obtain ⟨hoc, _⟩ := R.varsB n hvar obj hobj hon
+        cases hcl : c.inClass with
+        | true =>
+          have hcv : handleVar c s n ann (some v) inBlock =
+              { contents := upd s.contents n (fun o => storeVar o ann (some v) inBlock .classVariable), cur := some n } := by
+            simp [handleVar, hcl, handleClassVar, maybeAttribute, hl, hoc]
+          rw [hcv]
+          exact rel_updvar R n v ann inBlock .classVariable (by simp) hin hvar
+        | false =>
+          have hcv : handleVar c s n ann (some v) inBlock =
+              { contents := upd s.contents n (fun o => storeVar o ann (some v) inBlock .variable), cur := some n } := by
+            simp [handleVar, hcl, handleModuleVar, hl, hoc]
+          rw [hcv]
+          exact rel_updvar R n v ann inBlock .variable (by simp) hin hvar
+    · -- a new name
+      have hl : lookup s.contents n = none := by rw [lookup_none_iff, R.names]; exact hin
+      have hfresh : ∀ (l : List Name), (∀ k ∈ l, k ∈ sn.names) → ∀ k ∈ dropName n l, k ∈ l ∧ k ≠ n := by
+        intro l _ k hk; exact mem_dropName.mp hk
+      cases hcl : c.inClass with
+      | true =>
+        have hguard : (!maybeAttribute c s n && !((lookup s.contents n).isNone && isLiteralValue (some v))) = false := by
+          simp only [maybeAttribute, hl, Option.isNone_none, Bool.true_and]
+          cases hinh : c.inheritedNonAttr.contains n <;> cases hlit : isLiteralValue (some v) <;> simp_all
+        obtain ⟨f1, f2, f3, f4, f5⟩ := storeVar_facts { name := n, cls := .attribute, kind := .classVariable } ann v inBlock
+          .classVariable rfl (by simp) (by simp)
+        have hcv : handleVar c s n ann (some v) inBlock =
+            { contents := put s.contents (storeVar { name := n, cls := .attribute, kind := .classVariable } ann (some v) inBlock .classVariable),
+              cur := some n } := by
+          simp only [handleVar, hcl, if_true]
+          unfold handleClassVar
+          rw [hguard]
+          simp [hl]
+        rw [hcv]
+        have := rel_put R (storeVar { name := n, cls := .attribute, kind := .classVariable } ann (some v) inBlock .classVariable)
+          (.value v) (view_var c _ v f2 f3 f4)
+          (plain' := dropName n sn.plain) (doc' := dropName n sn.docable) (vars' := dropName n sn.vars ++ [n]) (cur' := some n)
+          { ov := by rw [f5], plain := by rw [f1]; intro k hk; exact Or.inl (mem_dropName.mp hk),
+            doc := by rw [f1]; intro k hk; exact Or.inl (mem_dropName.mp hk),
+            vars := by
+              rw [f1]; intro k hk
+              simp only [List.mem_append, List.mem_singleton] at hk
+              rcases hk with hk | hk
+              · exact Or.inl (mem_dropName.mp hk)
+              · exact Or.inr ⟨hk, f2, f3⟩,
+            cur := by intro k hk; simp at hk; subst hk; exact ⟨f1.symm, f2, f3⟩ }
+        rw [f1] at this
+        exact this
+      | false =>
+        obtain ⟨f1, f2, f3, f4, f5⟩ := storeVar_facts { name := n, cls := .attribute, kind := .variable } ann v inBlock
+          .variable rfl (by simp) (by simp)
+        have hcv : handleVar c s n ann (some v) inBlock =
+            { contents := put s.contents (storeVar { name := n, cls := .attribute, kind := .variable } ann (some v) inBlock .variable),
+              cur := some n } := by
+          simp [handleVar, hcl, handleModuleVar, hl]
+        rw [hcv]
+        have := rel_put R (storeVar { name := n, cls := .attribute, kind := .variable } ann (some v) inBlock .variable)
+          (.value v) (view_var c _ v f2 f3 f4)
+          (plain' := dropName n sn.plain) (doc' := dropName n sn.docable) (vars' := dropName n sn.vars ++ [n]) (cur' := some n)
+          { ov := by rw [f5], plain := by rw [f1]; intro k hk; exact Or.inl (mem_dropName.mp hk),
+            doc := by rw [f1]; intro k hk; exact Or.inl (mem_dropName.mp hk),
+            vars := by
+              rw [f1]; intro k hk
+              simp only [List.mem_append, List.mem_singleton] at hk
+              rcases hk with hk | hk
+              · exact Or.inl (mem_dropName.mp hk)
+              · exact Or.inr ⟨hk, f2, f3⟩,
+            cur := by intro k hk; simp at hk; subst hk; exact ⟨f1.symm, f2, f3⟩ }
+        rw [f1] at this
+        exact this
+
+theorem decoFlags_ok (inClass : Bool) (n : Name) (ds : List Deco) (h : ds.all (decoOk inClass) = true) :
+    decoFlags inClass n ds =
+      { funcName := n, isProperty := (descs ds).contains .property, isClassmethod := (descs ds).contains .classmethod,
+        isStaticmethod := (descs ds).contains .staticmethod, isOverload := false } := by
+  simp [decoFlags, foldl_decoStep_ok inClass ds _ h]
+
+theorem sim_funcDef {c : Ctx} {sn sn' : Seen} {s : State} {ns : PySem.Ns} (R : Rel c sn s ns) (inBlock : Bool)
+    (n : Name) (async : Bool) (decos : List Deco) (doc : Option (List Char))
+    (h : checkStmt c sn (.funcDef n async decos doc) = some sn') :
+    ∃ s' ns', execStmt c inBlock s (.funcDef n async decos doc) = .ok s' ∧
+      PySem.execStmt c ns (.funcDef n async decos doc) = .ok ns' ∧ Rel c sn' s' ns' := by
+  simp only [checkStmt] at h
+  split at h
+  · simp at h
+  · rename_i hd
+    simp only [Bool.not_eq_true', Bool.not_eq_false] at hd
+    simp only [Option.some.injEq] at h
+    subst h
+    simp only [decosOk, Bool.and_eq_true, decide_eq_true_eq] at hd
+    obtain ⟨hall, hlen⟩ := hd
+    have hpy : PySem.execStmt c ns (.funcDef n async decos doc) =
+        .ok (PySem.bind ns n (wrapAll (descs decos) (.func async doc))) := by
+      simp only [PySem.execStmt, applyDecos_ok c.inClass ns _ decos hall]
+    refine ⟨_, _, by simp only [execStmt]; rfl, hpy, ?_⟩
+    -- an existing entry of that name is never re-entered: no function of the subset has overloads
+    have hnoov : ∀ e, lookup s.contents n = some e → (decide (e.cls = .function) && decide (e.overloads > 0)) = false := by
+      intro e he
+      have := R.noOv e (lookup_some he).1
+      simp [this]
+    match hds : descs decos, hlen with
+    | [], _ =>
+      have hB : handleFunctionDef c s n async decos doc =
+          { contents := put s.contents { name := n, cls := .function, kind := if c.inClass then .method else .function, doc := doc.map cleandoc,
+                                         isAsync := async, hasSig := true }, cur := none } := by
+        simp only [handleFunctionDef, decoFlags_ok c.inClass n decos hall, hds]
+        cases hl : lookup s.contents n with
+        | none => cases doc <;> simp
+        | some e => have := hnoov e hl; cases doc <;> simp [this]
+      rw [hB]
+      cases hci : c.inClass with
+      | true =>
+        refine rel_put R { name := n, cls := .function, kind := .method, doc := doc.map cleandoc, isAsync := async, hasSig := true }
+          (.func async doc) ?_ { ov := rfl, plain := ?_, doc := ?_, vars := ?_, cur := by simp }
+        · simp [viewB, viewP, postProcess, kindClass, PySem.kindClass, PySem.coroutine, PySem.underlying, PySem.rawDoc, hci]
+        · intro k hk
+          simp at hk
+          rcases hk with hk | hk
+          · exact Or.inl (mem_dropName.mp hk)
+          · exact Or.inr ⟨hk, rfl, rfl, _, _, rfl⟩
+        · intro k hk
+          simp at hk
+          rcases hk with hk | hk
+          · exact Or.inl (mem_dropName.mp hk)
+          · exact Or.inr ⟨hk, Or.inl ⟨rfl, Or.inl rfl⟩, Or.inl ⟨_, _, rfl⟩⟩
+        · intro k hk; exact Or.inl (mem_dropName.mp hk)
+      | false =>
+        refine rel_put R { name := n, cls := .function, kind := .function, doc := doc.map cleandoc, isAsync := async, hasSig := true }
+          (.func async doc) ?_ { ov := rfl, plain := ?_, doc := ?_, vars := ?_, cur := by simp }
+        · simp [viewB, viewP, postProcess, kindClass, PySem.kindClass, PySem.coroutine, PySem.underlying, PySem.rawDoc, hci]
+        · intro k hk
+          simp at hk
+          exact Or.inl (mem_dropName.mp hk)
+        · intro k hk
+          simp at hk
+          rcases hk with hk | hk
+          · exact Or.inl (mem_dropName.mp hk)
+          · exact Or.inr ⟨hk, Or.inl ⟨rfl, Or.inr rfl⟩, Or.inl ⟨_, _, rfl⟩⟩
+        · intro k hk; exact Or.inl (mem_dropName.mp hk)
+    | [k], _ =>
+      cases k with
+      | property =>
+        have hB : handleFunctionDef c s n async decos doc =
+            { contents := put s.contents { name := n, cls := .attribute, kind := .property, doc := doc.map cleandoc },
+              cur := none } := by
+          simp [handleFunctionDef, decoFlags_ok c.inClass n decos hall, hds]
+        rw [hB]
+        refine rel_put R { name := n, cls := .attribute, kind := .property, doc := doc.map cleandoc }
+          (.prop (.func async doc)) ?_ { ov := rfl, plain := ?_, doc := ?_, vars := ?_, cur := by simp }
+        · simp [viewB, viewP, postProcess, kindClass, PySem.kindClass, PySem.coroutine, PySem.underlying, PySem.rawDoc, wrapAll, wrapD]
+        · intro k hk; simp at hk; exact Or.inl (mem_dropName.mp hk)
+        · intro k hk; simp at hk; exact Or.inl (mem_dropName.mp hk)
+        · intro k hk; exact Or.inl (mem_dropName.mp hk)
+      | classmethod =>
+        have hB : handleFunctionDef c s n async decos doc =
+            { contents := put s.contents { name := n, cls := .function, kind := .classMethod, doc := doc.map cleandoc,
+                                           isAsync := async, hasSig := true }, cur := none } := by
+          simp only [handleFunctionDef, decoFlags_ok c.inClass n decos hall, hds]
+          cases hl : lookup s.contents n with
+          | none => cases doc <;> simp
+          | some e => have := hnoov e hl; cases doc <;> simp [this]
+        rw [hB]
+        refine rel_put R { name := n, cls := .function, kind := .classMethod, doc := doc.map cleandoc, isAsync := async, hasSig := true }
+          (.cm (.func async doc)) ?_ { ov := rfl, plain := ?_, doc := ?_, vars := ?_, cur := by simp }
+        · simp [viewB, viewP, postProcess, kindClass, PySem.kindClass, PySem.coroutine, PySem.underlying, PySem.rawDoc, wrapAll, wrapD]
+        · intro k hk; simp at hk; exact Or.inl (mem_dropName.mp hk)
+        · intro k hk; simp at hk; exact Or.inl (mem_dropName.mp hk)
+        · intro k hk; exact Or.inl (mem_dropName.mp hk)
+      | staticmethod =>
+        have hB : handleFunctionDef c s n async decos doc =
+            { contents := put s.contents { name := n, cls := .function, kind := .staticMethod, doc := doc.map cleandoc,
+                                           isAsync := async, hasSig := true }, cur := none } := by
+          simp only [handleFunctionDef, decoFlags_ok c.inClass n decos hall, hds]
+          cases hl : lookup s.contents n with
+          | none => cases doc <;> simp
+          | some e => have := hnoov e hl; cases doc <;> simp [this]
+        rw [hB]
+        refine rel_put R { name := n, cls := .function, kind := .staticMethod, doc := doc.map cleandoc, isAsync := async, hasSig := true }
+          (.sm (.func async doc)) ?_ { ov := rfl, plain := ?_, doc := ?_, vars := ?_, cur := by simp }
+        · simp [viewB, viewP, postProcess, kindClass, PySem.kindClass, PySem.coroutine, PySem.underlying, PySem.rawDoc, wrapAll, wrapD]
+        · intro k hk; simp at hk; exact Or.inl (mem_dropName.mp hk)
+        · intro k hk; simp at hk; exact Or.inl (mem_dropName.mp hk)
+        · intro k hk; exact Or.inl (mem_dropName.mp hk)
 
 theorem kindClass_var {m : Member} (h1 : m.cls = .attribute) (h2 : m.kind ≠ .property) : kindClass m = .variable := by
   unfold kindClass; rw [h1]; cases hk' : m.kind <;> simp_all
@@ -607,7 +927,24 @@ theorem sim_attrDoc {c : Ctx} {sn sn' : Seen} {s : State} {ns : PySem.Ns} (R : R
           rw [if_pos e]
           exact viewB_doc_irrelevant c m _ h1 h2
         · simp [e]
-      refine { views := ?_, names := ?_, nodup := R.nodup, plainSub := R.plainSub, plainB := ?_, plainP := R.plainP, cur := by simp }
+      refine { views := ?_, names := ?_, nodup := R.nodup, plainSub := R.plainSub, plainB := ?_, plainP := R.plainP,
+               docSub := R.docSub, docB := ?_, docP := R.docP, cur := by simp,
+               noOv := (by
+          intro m' hm'
+          simp only [upd, List.mem_map] at hm'
+          obtain ⟨x, hx, rfl⟩ := hm'
+          by_cases e' : x.name = n
+          · simp only [e', if_true]; exact R.noOv x hx
+          · simp only [e', if_false]; exact R.noOv x hx),
+               varsSub := R.varsSub, varsB := (by
+          intro k hk m' hm' e
+          simp only [upd, List.mem_map] at hm'
+          obtain ⟨x, hx, rfl⟩ := hm'
+          by_cases e' : x.name = n
+          · simp only [e', if_true] at e ⊢
+            exact R.varsB k hk x hx (e' ▸ e)
+          · simp only [e', if_false] at e ⊢
+            exact R.varsB k hk x hx e) }
       · rw [← R.views]
         simp only [upd, List.map_map]
         exact List.map_congr_left (fun m hm => hg m hm)
@@ -624,6 +961,14 @@ theorem sim_attrDoc {c : Ctx} {sn sn' : Seen} {s : State} {ns : PySem.Ns} (R : R
           exact R.plainB k hk m hm (e' ▸ e)
         · simp only [e', if_false] at e ⊢
           exact R.plainB k hk m hm e
+      · intro k hk m' hm' e
+        simp only [upd, List.mem_map] at hm'
+        obtain ⟨m, hm, rfl⟩ := hm'
+        by_cases e' : m.name = n
+        · simp only [e', if_true] at e ⊢
+          exact R.docB k hk m hm (e' ▸ e)
+        · simp only [e', if_false] at e ⊢
+          exact R.docB k hk m hm e
 
 def wrapK : Wrap → Kind
   | .staticmethod => .staticMethod
@@ -671,7 +1016,26 @@ theorem sim_oldStyle {c : Ctx} {sn sn' : Seen} {s : State} {ns : PySem.Ns} (R : 
         have huniq : ∀ b ∈ ns, b.1 = n → b = (n, o) := by
           intro b hb e
           exact pairs_unique ns (by rw [R.pnames]; exact R.nodup) b hb (n, o) hmem e
-        refine { views := ?_, names := ?_, nodup := R.nodup, plainSub := ?_, plainB := ?_, plainP := ?_, cur := ?_ }
+        refine { views := ?_, names := ?_, nodup := R.nodup, plainSub := ?_, plainB := ?_, plainP := ?_,
+                 docSub := ?_, docB := ?_, docP := ?_, cur := ?_,
+                 noOv := (by
+          intro m' hm'
+          simp only [upd, List.mem_map] at hm'
+          obtain ⟨x, hx, rfl⟩ := hm'
+          by_cases e' : x.name = n
+          · simp only [e', if_true]; exact R.noOv x hx
+          · simp only [e', if_false]; exact R.noOv x hx),
+                 varsSub := R.varsSub, varsB := (by
+          intro k hk m' hm' e
+          simp only [upd, List.mem_map] at hm'
+          obtain ⟨x, hx, rfl⟩ := hm'
+          by_cases e' : x.name = n
+          · simp only [e', if_true] at e
+            have h1 := (R.varsB k hk x hx (e' ▸ e)).1
+            have h2 := (R.plainB n hpl' x hx e').1
+            rw [h1] at h2; exact absurd h2 (by simp)
+          · simp only [e', if_false] at e ⊢
+            exact R.varsB k hk x hx e) }
         · simp only [upd]
           apply map_map_eq (viewB c) (viewP c) _ _ _ _ R.views
           intro m hm b hb hv
@@ -720,6 +1084,27 @@ theorem sim_oldStyle {c : Ctx} {sn sn' : Seen} {s : State} {ns : PySem.Ns} (R : 
             exact absurd e.symm hk.2
           · simp only [e', if_false] at e ⊢
             exact R.plainP k hk.1 b hb e
+        · intro k hk
+          simp only [List.mem_filter] at hk
+          exact R.docSub k hk.1
+        · intro k hk m' hm' e
+          simp only [List.mem_filter, bne_iff_ne, ne_eq] at hk
+          simp only [upd, List.mem_map] at hm'
+          obtain ⟨m, hm, rfl⟩ := hm'
+          by_cases e' : m.name = n
+          · simp only [e', if_true] at e
+            exact absurd e.symm hk.2
+          · simp only [e', if_false] at e ⊢
+            exact R.docB k hk.1 m hm e
+        · intro k hk b' hb' e
+          simp only [List.mem_filter, bne_iff_ne, ne_eq] at hk
+          simp only [List.mem_map] at hb'
+          obtain ⟨b, hb, rfl⟩ := hb'
+          by_cases e' : b.1 = n
+          · simp only [e', if_true] at e
+            exact absurd e.symm hk.2
+          · simp only [e', if_false] at e ⊢
+            exact R.docP k hk.1 b hb e
         · intro k hk m' hm' e
           simp only [upd, List.mem_map] at hm'
           obtain ⟨m, hm, rfl⟩ := hm'
@@ -728,6 +1113,149 @@ theorem sim_oldStyle {c : Ctx} {sn sn' : Seen} {s : State} {ns : PySem.Ns} (R : 
             have h1 := (R.cur k hk m hm (e' ▸ e)).1
             have h2 := (R.plainB n hpl' m hm e').1
             rw [h1] at h2; exact absurd h2 (by simp)
+          · simp only [e', if_false] at e ⊢
+            exact R.cur k hk m hm e
+  · simp at h
+
+theorem viewB_setdoc (c : Ctx) (m : Member) (d : Option (List Char)) (hnv : kindClass (postProcess c m) ≠ .variable) :
+    viewB c { m with doc := d } = { viewB c m with doc := d } := by
+  have hpp : postProcess c { m with doc := d } = { postProcess c m with doc := d } := by
+    unfold postProcess; split <;> rfl
+  have hkk : kindClass { postProcess c m with doc := d } = kindClass (postProcess c m) := rfl
+  unfold viewB
+  rw [hpp, hkk, if_neg hnv, if_neg hnv]
+
+/-- the object `name.__doc__ = text` writes to on the CPython side -/
+def setDocO (t : List Char) : PySem.PyObj → PySem.PyObj
+  | .func a _ => .func a (some t)
+  | .cls e _ => .cls e (some t)
+  | o => o
+
+theorem sim_docAssign {c : Ctx} {sn sn' : Seen} {s : State} {ns : PySem.Ns} (R : Rel c sn s ns) (inBlock : Bool)
+    (n : Name) (t : List Char) (h : checkStmt c sn (.docAssign n t) = some sn') :
+    ∃ s' ns', execStmt c inBlock s (.docAssign n t) = .ok s' ∧
+      PySem.execStmt c ns (.docAssign n t) = .ok ns' ∧ Rel c sn' s' ns' := by
+  simp only [checkStmt] at h
+  split at h
+  · rename_i hc
+    simp only [Bool.and_eq_true, beq_iff_eq] at hc
+    obtain ⟨hd, hclean⟩ := hc
+    have hd' : n ∈ sn.docable := by simpa using hd
+    simp only [Option.some.injEq] at h
+    subst h
+    have hnn : n ∈ sn.names := R.docSub n hd'
+    cases hl : lookup s.contents n with
+    | none => rw [lookup_none_iff, R.names] at hl; exact absurd hnn hl
+    | some obj =>
+      cases hlp : PySem.lookup ns n with
+      | none => rw [plookup_none_iff, R.pnames] at hlp; exact absurd hnn hlp
+      | some o =>
+        have hmem := plookup_some hlp
+        have hdo : DocP o := R.docP n hd' (n, o) hmem rfl
+        have hB : execStmt c inBlock s (.docAssign n t) =
+            .ok { s with contents := upd s.contents n (fun o => { o with doc := some t }) } := by
+          simp only [execStmt, handleDocAssign, hl]
+        have hP : PySem.execStmt c ns (.docAssign n t) =
+            .ok (ns.map (fun p => if p.1 = n then (n, setDocO t o) else p)) := by
+          rcases hdo with ⟨a, d, rfl⟩ | ⟨e, d, rfl⟩ <;> simp [PySem.execStmt, hlp, PySem.bind, setDocO]
+        refine ⟨_, _, hB, hP, ?_⟩
+        have huniq : ∀ b ∈ ns, b.1 = n → b = (n, o) := by
+          intro b hb e
+          exact pairs_unique ns (by rw [R.pnames]; exact R.nodup) b hb (n, o) hmem e
+        refine { views := ?_, names := ?_, nodup := R.nodup, plainSub := R.plainSub, plainB := ?_, plainP := ?_,
+                 docSub := R.docSub, docB := ?_, docP := ?_, cur := ?_,
+                 noOv := (by
+          intro m' hm'
+          simp only [upd, List.mem_map] at hm'
+          obtain ⟨x, hx, rfl⟩ := hm'
+          by_cases e' : x.name = n
+          · simp only [e', if_true]; exact R.noOv x hx
+          · simp only [e', if_false]; exact R.noOv x hx),
+                 varsSub := R.varsSub, varsB := (by
+          intro k hk m' hm' e
+          simp only [upd, List.mem_map] at hm'
+          obtain ⟨x, hx, rfl⟩ := hm'
+          by_cases e' : x.name = n
+          · simp only [e', if_true] at e ⊢
+            exact R.varsB k hk x hx (e' ▸ e)
+          · simp only [e', if_false] at e ⊢
+            exact R.varsB k hk x hx e) }
+        · simp only [upd]
+          apply map_map_eq (viewB c) (viewP c) _ _ _ _ R.views
+          intro m hm b hb hv
+          have hname : m.name = b.1 := by simpa [viewB, viewP] using congrArg View.name hv
+          by_cases e : m.name = n
+          · have eb : b.1 = n := hname ▸ e
+            have hmB := R.docB n hd' m hm e
+            have hbb := huniq b hb eb
+            subst hbb
+            rw [if_pos e, if_pos eb]
+            have hnv : kindClass (postProcess c m) ≠ .variable := by
+              rcases hmB with ⟨h1, h2⟩ | h1
+              · have : postProcess c m = m := by simp [postProcess, h1]
+                rw [this]; unfold kindClass; rw [h1]; rcases h2 with h2 | h2 <;> rw [h2] <;> simp
+              · unfold postProcess
+                split
+                · unfold kindClass; simp [h1]
+                · unfold kindClass; rw [h1]; cases m.kind <;> simp
+            rw [viewB_setdoc c m (some t) hnv, hv]
+            rcases hdo with ⟨a, d, rfl⟩ | ⟨x, d, rfl⟩
+            · simp only [viewP, setDocO, PySem.rawDoc, PySem.underlying, Option.map_some, PySem.kindClass, PySem.coroutine,
+                show cleandoc t = t from hclean]
+            · simp only [viewP, setDocO, PySem.rawDoc, PySem.underlying, Option.map_some, PySem.kindClass, PySem.coroutine,
+                show cleandoc t = t from hclean]
+          · have eb : ¬ b.1 = n := hname ▸ e
+            rw [if_neg e, if_neg eb]; exact hv
+        · rw [← R.names]
+          simp only [upd, List.map_map]
+          apply List.map_congr_left
+          intro m _
+          by_cases e : m.name = n <;> simp [e]
+        · intro k hk m' hm' e
+          simp only [upd, List.mem_map] at hm'
+          obtain ⟨m, hm, rfl⟩ := hm'
+          by_cases e' : m.name = n
+          · simp only [e', if_true] at e ⊢
+            exact R.plainB k hk m hm (e' ▸ e)
+          · simp only [e', if_false] at e ⊢
+            exact R.plainB k hk m hm e
+        · intro k hk b' hb' e
+          simp only [List.mem_map] at hb'
+          obtain ⟨b, hb, rfl⟩ := hb'
+          by_cases e' : b.1 = n
+          · simp only [e', if_true] at e ⊢
+            have := R.plainP k hk b hb (e' ▸ e)
+            rw [huniq b hb e'] at this
+            obtain ⟨a, d, hod⟩ := this
+            simp only at hod
+            subst hod
+            exact ⟨a, some t, rfl⟩
+          · simp only [e', if_false] at e ⊢
+            exact R.plainP k hk b hb e
+        · intro k hk m' hm' e
+          simp only [upd, List.mem_map] at hm'
+          obtain ⟨m, hm, rfl⟩ := hm'
+          by_cases e' : m.name = n
+          · simp only [e', if_true] at e ⊢
+            exact R.docB k hk m hm (e' ▸ e)
+          · simp only [e', if_false] at e ⊢
+            exact R.docB k hk m hm e
+        · intro k hk b' hb' e
+          simp only [List.mem_map] at hb'
+          obtain ⟨b, hb, rfl⟩ := hb'
+          by_cases e' : b.1 = n
+          · simp only [e', if_true] at e ⊢
+            rcases hdo with ⟨a, d, rfl⟩ | ⟨x, d, rfl⟩
+            · exact Or.inl ⟨a, some t, rfl⟩
+            · exact Or.inr ⟨x, some t, rfl⟩
+          · simp only [e', if_false] at e ⊢
+            exact R.docP k hk b hb e
+        · intro k hk m' hm' e
+          simp only [upd, List.mem_map] at hm'
+          obtain ⟨m, hm, rfl⟩ := hm'
+          by_cases e' : m.name = n
+          · simp only [e', if_true] at e ⊢
+            exact R.cur k hk m hm (e' ▸ e)
           · simp only [e', if_false] at e ⊢
             exact R.cur k hk m hm e
   · simp at h
@@ -752,6 +1280,8 @@ theorem sim_stmt (c : Ctx) : (st : Stmt) → ∀ (inBlock : Bool) (sn sn' : Seen
   | .annOnly n ann, _, _, _, _, _, _, h => by simp [checkStmt] at h
   | .attrDoc t, ib, _, _, _, _, R, h => sim_attrDoc R ib t h
   | .oldStyle n w, ib, _, _, _, _, R, h => sim_oldStyle R ib n w h
+  | .docAssign n t, ib, _, _, _, _, R, h => sim_docAssign R ib n t h
+  | .delName n, _, _, _, _, _, _, h => by simp [checkStmt] at h
   | .other, _, sn, sn', s, ns, R, h => by
     simp only [checkStmt, Option.some.injEq] at h
     subst h
@@ -1216,6 +1746,103 @@ pydoctor documents the body of a block CPython does not execute — an untaken `
 theorem documented_eq_bound_untaken_guard_counterexample :
     documented (cx false) [.ifCmp ⟨.mainStr, .eq, .dunderName, false⟩ [.funcDef nF false [] none]] = [(nF, .function)] ∧
     bound (cx false) [.ifCmp ⟨.mainStr, .eq, .dunderName, false⟩ [.funcDef nF false [] none]] = [] := by decide
+
+/-! ## `Class.find` / `_maybeAttribute` over the bases -/
+
+theorem findIn_some_mem : ∀ (chain : List ClassContents) (n : Name) (b : Bool), findIn chain n = some b →
+    n ∈ chain.flatMap (fun cc => cc.map (·.1))
+  | [], _, _, h => by simp [findIn] at h
+  | cc :: rest, n, b, h => by
+    simp only [findIn] at h
+    simp only [List.flatMap_cons, List.mem_append]
+    cases hf : cc.find? (fun p => decide (p.1 = n)) with
+    | some p =>
+      left
+      have h1 := List.mem_of_find?_eq_some hf
+      have h2 : p.1 = n := by simpa using List.find?_some hf
+      exact List.mem_map.mpr ⟨p, h1, h2⟩
+    | none =>
+      simp only [hf] at h
+      right; exact findIn_some_mem rest n b h
+
+/-- the names handed to the scope as context are exactly those `find` answers on the bases with a non-Attribute -/
+theorem inheritedNonAttrOf_contains (bases : List ClassContents) (n : Name) :
+    (inheritedNonAttrOf bases).contains n = (findIn bases n == some false) := by
+  cases hf : findIn bases n == some false with
+  | true =>
+    have hm := findIn_some_mem bases n false (by simpa using hf)
+    have : n ∈ inheritedNonAttrOf bases := by
+      unfold inheritedNonAttrOf
+      exact List.mem_filter.mpr ⟨hm, hf⟩
+    simpa using this
+  | false =>
+    have : n ∉ inheritedNonAttrOf bases := by
+      unfold inheritedNonAttrOf
+      intro hmem
+      have := (List.mem_filter.mp hmem).2
+      rw [hf] at this
+      exact Bool.noConfusion this
+    simpa using this
+
+theorem find_own (s : State) (n : Name) :
+    (ownContents s).find? (fun p => decide (p.1 = n)) = (lookup s.contents n).map fun m => (m.name, decide (m.cls = .attribute)) := by
+  unfold ownContents lookup
+  induction s.contents with
+  | nil => rfl
+  | cons m rest ih =>
+    simp only [List.map_cons, List.find?_cons]
+    by_cases e : m.name = n <;> simp [e, ih]
+
+/-- **maybeAttribute_eq_find** — the scope-level guard with the context `inheritedNonAttrOf bases` IS
+`_maybeAttribute` = `Class.find` over the chain (own contents first, then the bases in `mro()` order). -/
+theorem maybeAttribute_eq_find (c : Ctx) (s : State) (n : Name) (bases : List ClassContents)
+    (h : c.inheritedNonAttr = inheritedNonAttrOf bases) :
+    maybeAttribute c s n = maybeAttributeIn (ownContents s :: bases) n := by
+  unfold maybeAttribute maybeAttributeIn
+  simp only [findIn, find_own]
+  cases hl : lookup s.contents n with
+  | some obj => simp
+  | none =>
+    simp only [Option.map_none, h, inheritedNonAttrOf_contains]
+    cases hf : findIn bases n with
+    | none => simp
+    | some b => cases b <;> simp
+
+example : maybeAttributeIn [[(nW, true)], [(nF, false)], [(nF, true)]] nF = false := by decide
+example : inheritedNonAttrOf [[(nF, false), (nW, true)], [(nW, false)]] = [nF] := by decide
+
+/-- `del name` is not looked at (there is no `visit_Delete`): the object stays documented although the name is
+unbound again when the body has run — outside the subset (DESIGN 7-C03: `del` excluded) -/
+theorem documented_eq_bound_del_counterexample :
+    documented (cx false) [.assign nW .int none, .delName nW] = [(nW, .variable)] ∧
+    bound (cx false) [.assign nW .int none, .delName nW] = [] := by decide
+
+/-- `f.__doc__ = "  indented\n    more"`: the interpreter's cleaned docstring is `"indented\nmore"`, pydoctor keeps
+the string as written (`_handleDocstringUpdate` does not go through `cleandoc`) -/
+theorem docstring_eq_docassign_counterexample :
+    docsOf (cx false) [.funcDef nF false [] none, .docAssign nF "  indented\n    more".toList]
+      = [some "  indented\n    more".toList] ∧
+    pyDocsOf (cx false) [.funcDef nF false [] none, .docAssign nF "  indented\n    more".toList]
+      = [some "indented\nmore".toList] := by decide
+
+example : inSubset (cx true) [.funcDef nF false [.ident nD] none, .docAssign nF "assigned later".toList,
+    .classDef nK [] [] none [], .docAssign nK "Title\n\nkept".toList] = true := by decide
+example : docsOf (cx true) [.funcDef nF false [.ident nD] none, .docAssign nF "assigned later".toList]
+    = [some "assigned later".toList] := by decide
+
+/-- re-definitions inside the subset — the last binding wins on both sides (`System.addObject`: `contents[name] = obj`):
+a `def` over a `def` (the classmethod kind and the docstring of the first are gone), a `def` over a variable, a `class`
+over a `def`, a variable assigned twice (the literal of the last assignment) -/
+example : inSubset (cx true) [.funcDef nF false [.builtin .classmethod false] (some "first".toList), .funcDef nF false [] none]
+    = true := by decide
+example : inSubset (cx true) [.assign nW .int none, .funcDef nW true [] none, .funcDef nK false [] none, .classDef nK [] [] none [],
+    .assign nX .int none, .assign nX (.list [.str]) none] = true := by decide
+example : documented (cx true) [.funcDef nF false [.builtin .classmethod false] (some "first".toList), .funcDef nF false [] none]
+    = [(nF, .method)] := by decide
+example : documented (cx true) [.assign nW .int none, .funcDef nW true [] none, .funcDef nK false [] none, .classDef nK [] [] none []]
+    = [(nW, .method), (nK, .cls)] := by decide
+example : docsOf (cx true) [.funcDef nF false [.builtin .classmethod false] (some "first".toList), .funcDef nF false [] none]
+    = [none] := by decide
 
 /-- wrapping a method twice the old way trips `assert target_obj.kind is DocumentableKind.METHOD` -/
 theorem oldstyle_double_wrap_asserts :
